@@ -3,4 +3,5 @@ CONSTANT Deviations <- NoDev
 INVARIANT TypeOK
 INVARIANT CleanExit
 INVARIANT DebugThreadAlive
+INVARIANT ThreadEndsUnlessBusy
 PROPERTY Terminates
